@@ -153,6 +153,8 @@ def make_config(prop, seed, tier):
         "preseed": [],
         "faults": r.random() < 0.75,  # restarts / evictions / clock / chunking enabled
         "steps": r.randint(8, 25) if tier == "quick" else r.randint(10, 60),
+        # separate configuration (DESIGN.md 2.3(4)): injected ENOSPC/EIO inside write requests
+        "io_faults": prop in ("C01", "C02", "C08") and r.random() < 0.3,
     }
     if r.random() < 0.6:
         cfg["preseed"].append({"path": "/user/calendars/bare/", "backend": "bare", "kind": "calendar"})
@@ -202,6 +204,7 @@ class HistRun:
         self.git_heads = {}  # coll path -> list of commit ids (observer)
         self.last_fault = None
         self.world = None
+        self.io_armed = 0
         self.body_hist = {}
 
     # ------------------------------------------------------------------ util
@@ -473,6 +476,9 @@ class HistRun:
                 if self.cfg.get("faults", True) and self.cfg.get("frontend") == "aiohttp" and op["op"] in ("put", "post", "proppatch", "report", "propfind", "mkcol", "mkcalendar") and self.frng.random() < 0.3:
                     n = self.frng.randint(1, 4)
                     op["chunks"] = [self.frng.randint(1, 200) for _ in range(n)]
+                if self.cfg.get("io_faults") and op["op"] in ("put", "post", "delete", "proppatch", "reupload") and self.io_armed < 2 and self.frng.random() < 0.25:
+                    op["fault"] = {"after": self.frng.randint(1, 45), "errno": self.frng.choice(["ENOSPC", "ENOSPC", "EIO"])}
+                    self.io_armed += 1
                 return op
         return {"op": "get", "path": "/user/", "salt": 0}
 
@@ -818,7 +824,20 @@ class HistRun:
         kind = op["op"]
         self.count("op." + kind)
         handler = getattr(self, "x_" + kind)
+        fault = op.get("fault")
+        if fault:
+            import errno as _errno
+
+            FS.err_at = {FS.mut_seq + fault["after"]: getattr(_errno, fault["errno"])}
+            FS.err_fired = []
         ctx = handler(op)
+        if fault:
+            FS.err_at = {}
+            if FS.err_fired:
+                self.count("fault.io_error_" + fault["errno"].lower())
+                if ctx is not None:
+                    ctx["io_fault"] = True
+                FS.err_fired = []
         # audit after every step
         after = self.audit()
         if ctx is None:
